@@ -139,11 +139,14 @@ def check_sys_path_modifications(module_context):
 
 
 def discover_buildout_paths(inference_state, script_path):
-    buildout_script_paths = set()
+    # A list, the order of the paths matters (sys.path) and should not depend
+    # on the hash seed.
+    buildout_script_paths = []
 
     for buildout_script_path in _get_buildout_script_paths(script_path):
         for path in _get_paths_from_buildout_script(inference_state, buildout_script_path):
-            buildout_script_paths.add(path)
+            if path not in buildout_script_paths:
+                buildout_script_paths.append(path)
             if len(buildout_script_paths) >= _BUILDOUT_PATH_INSERTION_LIMIT:
                 break
 
